@@ -270,6 +270,18 @@ _W9 = {
     "C16": " Ninth-wave addition: in an eighth of the runs the subject sends early (two requests in one write, the rest a little later); those runs are checked on the stream as a whole: every frame addressed to one of the requests, none answered twice, in request order, exception shape per class.",
     "C19": " Ninth-wave addition: bytes of something else right behind the reply, in the same read.",
 }
+_W10 = {
+    "C05": " Tenth-wave addition: field lists of 64000-69000 entries (1 run in 1000).",
+    "C07": " Tenth-wave addition: long histories - the call under test follows 16-45, 200-400 or 254-257/511 healthy exchanges on the same client (in a third of them every reply takes up to 60 ms); every response of the history must still re-encode to its reply at the end.",
+    "C08": " Tenth-wave addition: the faulty exchange may follow a long history of healthy ones on the same client; an oversize reply that ends is met after each exchange of the history.",
+    "C12": " Tenth-wave addition: long histories in which the same corrupted reply follows each healthy exchange; idle gaps of up to 3 s; leading 0x00/0xFF bytes.",
+    "C13": " Tenth-wave addition: one response read 280-780 times through views made again and again.",
+    "C14": " Tenth-wave addition: crowds of 33-132 callers (transport monitors only); 1 run in 30000: three callers making more than 65536 calls.",
+    "C15": " Tenth-wave addition: long sessions, one connection with 90-430 requests.",
+    "C16": " Tenth-wave addition: a crowd of 66-130 clients that send one request and hang up before the reply, ahead of the connections under test.",
+    "C17": " Tenth-wave addition: many-clients runs with up to 1100 clients (half of those: every one rejected), long-lived connections arriving around the 256th; 1 run in 30000: one connection answered more than 65536 times before a graceful shutdown aimed at its next handler.",
+    "C19": " Tenth-wave addition: long histories of fragmented, hooked exchanges before the exchange under test, each held to the same obligations; idle gaps of up to 3 s.",
+}
 for _k, _v in _W3.items():
     META[_k]["rule"] += _v
 for _k, _v in _W4.items():
@@ -281,4 +293,6 @@ for _k, _v in _W6.items():
 for _k, _v in _W7.items():
     META[_k]["rule"] += _v
 for _k, _v in _W9.items():
+    META[_k]["rule"] += _v
+for _k, _v in _W10.items():
     META[_k]["rule"] += _v
